@@ -31,6 +31,9 @@ def run(ctx):
     rule_c(ctx, cr)
     rule_d(ctx, cr)
     rule_e(ctx, cr)
+    ctx.rule("C17.f", "field count: do_input requests the redo under `expected != fields.len()` "
+             "(an (in)equality, so too many fields are rejected like too few)")
+    rule_f(ctx, cr)
 
 
 def _ordered(f, calls):
@@ -215,3 +218,24 @@ def rule_e(ctx, cr):
     v = cr.need_fn("mach::function::Function::val")
     ctx.check(bool(v.calls_to(f.path)), "C17.e", "VAL/shares-conversion", v.span,
               "VAL uses the same conversion")
+
+
+def rule_f(ctx, cr, rid="C17.f"):
+    f = cr.need_fn("mach::runtime::Runtime::do_input")
+    ctx.touch(f)
+    redo = [b for b, s, v in f.field_stores("state")
+            if f.stored_variant(v) == ("mach::runtime::State", "InputRedo")]
+    ok = False
+    seen = []
+    for b in redo:
+        for op, l, r, truth in f.cmp_conds_at(b):
+            d = (f.describe(l), f.describe(r))
+            if any("Vec::<T, A>::len" in x for x in d):
+                seen.append((op, truth))
+                if (op, truth) in (("Ne", True), ("Eq", False)):
+                    ok = True
+    ctx.check(ok, rid, "do_input/count-test-is-inequality", f.span,
+              "REDO FROM START when the number of fields differs from the number of variables",
+              "the field-count test guarding the redo is %s: a reply with too many fields is "
+              "accepted (the surplus is folded into the last variable or left on the stack)"
+              % (seen or "missing"))
